@@ -301,11 +301,12 @@ Proof.
       * unfold refines; simp_st. repeat split; try assumption; try lia.
         now apply bounded_upd_next.
     + split; [reflexivity|]. unfold refines. repeat split; assumption.
-  - rewrite Hst, has_id_aenum by assumption. unfold a_defined.
+  - assert (lookup id (store s) = a_map a id) as Hl by (rewrite Hst; now apply lookup_aenum).
+    rewrite Hl.
     destruct (a_map a id) as [r|] eqn:E; cbn [fst snd].
-    + destruct (valid_type typ && existsb (fun e => r_typ (snd e) =? typ) (aenum (a_map a) (a_next a)));
+    + destruct (valid_type typ && (r_typ r =? typ));
         cbn [fst snd]; (split; [reflexivity|]).
-      * unfold refines, with_store, a_with_map; simp_st. rewrite (update_aenum id r) by assumption.
+      * unfold refines, with_store, a_with_map; simp_st. rewrite Hst, (update_aenum id r) by assumption.
         repeat split; try assumption. apply bounded_upd_in; [assumption|].
         now apply (bounded_defined _ _ _ r Hb).
       * unfold refines. repeat split; assumption.
@@ -483,7 +484,10 @@ Proof.
     rewrite Hnow in Hd. now apply (a_step_gc c a o i r).
   - assert (next_id s <= next_id (fst (step c s o))); [|lia].
     destruct o; cbn [step];
-      repeat match goal with |- context [if ?b then _ else _] => destruct b end;
+      repeat match goal with
+             | |- context [if ?b then _ else _] => destruct b
+             | |- context [match lookup ?i ?d with _ => _ end] => destruct (lookup i d)
+             end;
       cbn [fst next_id with_store]; lia.
 Qed.
 
@@ -500,7 +504,10 @@ Qed.
 Lemma step_next_mono c s o : next_id s <= next_id (fst (step c s o)).
 Proof.
   destruct o; cbn [step];
-    repeat match goal with |- context [if ?b then _ else _] => destruct b end;
+    repeat match goal with
+             | |- context [if ?b then _ else _] => destruct b
+             | |- context [match lookup ?i ?d with _ => _ end] => destruct (lookup i d)
+             end;
     cbn [fst next_id with_store]; lia.
 Qed.
 
@@ -573,8 +580,8 @@ Theorem update_changes_only_content c s aid i typ tok :
      provs s' = provs s /\ conss s' = conss s /\ next_id s' = next_id s /\ now s' = now s) /\
   (out <> [0] -> s' = s).
 Proof.
-  cbn [step]. rewrite has_id_lookup. destruct (lookup i (store s)) as [r|] eqn:E.
-  - destruct (valid_type typ && existsb (fun e => r_typ (snd e) =? typ) (store s)); cbn [fst snd].
+  cbn [step]. destruct (lookup i (store s)) as [r|] eqn:E.
+  - destruct (valid_type typ && (r_typ r =? typ)); cbn [fst snd].
     + split; [intros _|intros H; now contradiction H].
       unfold with_store; cbn [store provs conss next_id now]. repeat split.
       * exists r. split; [reflexivity|]. rewrite lookup_update_map, Z.eqb_refl, E. reflexivity.
@@ -718,12 +725,12 @@ Proof.
     rewrite dead_set_content, Hgc; reflexivity.
   - destruct (id =? i) eqn:E.
     + apply Z.eqb_eq in E. subst id. rewrite Hi.
-      destruct (valid_type typ && existsb (fun e => r_typ (snd e) =? typ) (aenum (a_map a) (a_next a)));
+      destruct (valid_type typ && (r_typ (set_content r ty tk) =? typ));
         abs_simpl; cbn [hd andb Z.eqb fst snd].
       * unfold upd. now rewrite Z.eqb_refl.
       * exact Hi.
-    + cbn [andb fst snd]. destruct (a_map a id);
-        [destruct (valid_type typ && existsb (fun e => r_typ (snd e) =? typ) (aenum (a_map a) (a_next a)))|];
+    + cbn [andb fst snd]. destruct (a_map a id) as [r1|];
+        [destruct (valid_type typ && (r_typ r1 =? typ))|];
         abs_simpl; try exact Hi.
       unfold upd. assert (i =? id = false) as -> by lia. exact Hi.
   - destruct (a_map a id); abs_simpl; [|exact Hi].
